@@ -47,14 +47,20 @@ Definition msg_of_spec (W : world) (spec : sx) : option wire :=
           else None
       | None => None
       end
-  | SL [t; SN j; SN h] =>
+  | SL [t; SN j; SN h; SN long] =>
+      (* (hdr j h long): message j with its header counter rewritten to h; long = its body
+         can hold an ephemeral key (32 bytes), which decides whether a fresh responder's
+         Noise state consumes it when h = 0 *)
       if is_sym "hdr" t then
+        let junk := TAtom (if long =? 0 then 996 else 998) in
         match nthw (w_msgs W) j with
-        | Some (WC _ c) => Some (WC h c)
-        | Some (W0 e ts kc sg) => if h =? 0 then Some (W0 e ts kc sg) else Some (WC h (TAtom 998))
-        | Some (W1 e c) => if h =? 1 then Some (W1 e c) else Some (WC h (TAtom 998))
+        | Some (WC _ c) => if h =? 0 then Some (WC 0 junk) else Some (WC h c)
+        | Some (W0 e ts kc sg) => if h =? 0 then Some (W0 e ts kc sg) else Some (WC h junk)
+        | Some (W1 e c) => if h =? 1 then Some (W1 e c) else Some (WC h junk)
         | _ => None end
-      else if is_sym "ihsplice" t then
+      else None
+  | SL [t; SN j; SN h] =>
+      if is_sym "ihsplice" t then
         match nthw (w_msgs W) h with
         | Some (W0 _ ts kc sg) => Some (W0 j ts kc sg)
         | _ => None end
